@@ -135,8 +135,15 @@ class Conv:
         except Exception as e:      # noqa
             text = 'repr raised ' + type(e).__name__
         import hashlib
-        return {'t': 'opaque', 'type': why or (type(v).__module__ + '.' + type(v).__qualname__),
-                'digest': hashlib.sha1(text.encode('utf-8', 'replace')).hexdigest()[:16]}
+        out = {'t': 'opaque', 'type': why or (type(v).__module__ + '.' + type(v).__qualname__),
+               'digest': hashlib.sha1(text.encode('utf-8', 'replace')).hexdigest()[:16]}
+        if why is None and not isinstance(v, (int, float, decimal.Decimal, str, bytes)):
+            try:
+                import copy
+                copy.deepcopy(v)
+            except Exception:       # noqa  (a lock, a generator, an open file, a view: deepcopy refuses)
+                out['nocopy'] = True
+        return out
 
     def is_opaque(self, v):
         """Does the projection of v (as an argument) have type opaque?  Cheap for the common types."""
